@@ -744,6 +744,15 @@ func init() {
 		ip := Interp{Parts: []InterpPart{{Text: "n="}, {Hole: n}, {Text: "!"}}}
 		return &Block{Stmts: append([]Stmt{Let{n, rhs}, Let{s, ip}}, body.Stmts...), Final: body.Final}
 	}})
+	add(prod{name: "interp-first-in-statement", app: is("unit"), mk: func(g *Gen, t Type, env Env2, fuel, pos int) Expr {
+		// a unit statement that begins with an interpolated string: $"n={n}!" |> say  (n must be a variable in scope)
+		ns := env.ofType("int")
+		if len(ns) == 0 || fuel != 1 {
+			g.C.Skip("needs an int variable and exactly one construct")
+		}
+		n := ns[g.C.Choose(len(ns))]
+		return BinOp{"|>", Interp{Parts: []InterpPart{{Text: "n="}, {Hole: n}, {Text: "!"}}}, Var{"say"}}
+	}})
 	add(prod{name: "sprintf", rep: true, tiny: true, app: is("string"), mk: func(g *Gen, t Type, env Env2, fuel, pos int) Expr {
 		return call("frt.Sprintf1", StrLit{"<%d>"}, g.Gen("int", env, fuel-1, PosExpr))
 	}})
